@@ -482,7 +482,11 @@ def r10_orderable_arguments(ctx, cmpf, rule="C17.R10"):
         ctx.ob(rule, RES, "Table._compare", cmpf, f"on the bisect path {what}", f_ in found, stmt=f"normalisation: {f_}")
     # ... and they dominate every bisection: passing the `arg is None` test (either edge) is the witness for (a); for (b)/(c) the guards are value dependent,
     # so the must-pass is on the test nodes themselves
-    tests = {"none": lambda t: canon(t) == canon(f"{A} is None"), "str": lambda t: "isinstance" in t and "str" in t and A in t}
+    tests = {"none": lambda t: canon(t) == canon(f"{A} is None"), "str": lambda t: "isinstance" in t and "str" in t and A in t,
+             "nan": lambda t: canon(f"{A} != {A}") in canon(t)}
+    nan_scan = [r for r in ast.walk(cmpf) if isinstance(r, ast.Return) and any(canon(f"{A} != {A}") in canon(unparse(t)) and pol for t, pol in all_guards(r, cmpf))
+                and any(isinstance(c, ast.Call) and call_tail(c) == "_compare" for c in ast.walk(r))]
+    ctx.ob(rule, RES, "Table._compare", (nan_scan or [cmpf])[0], "on the bisect path a NaN argument (or a collection holding one) is answered by the scan arms over the range", bool(nan_scan), stmt="normalisation: nan")
 
     def transfer(node, st, label):
         if label in ("exc", "abandon"):
@@ -499,7 +503,7 @@ def r10_orderable_arguments(ctx, cmpf, rule="C17.R10"):
             continue
         for c in [c for c in ast.walk(a) if isinstance(c, ast.Call) and (call_name(c) or "").startswith("my_bisect")]:
             n += 1
-            ctx.ob(rule, RES, "Table._compare", c, "the bisection is reached only after the None / string-collection tests of the bisect path", {"none", "str"} <= set(IN[nd.id]),
+            ctx.ob(rule, RES, "Table._compare", c, "the bisection is reached only after the None / string-collection tests of the bisect path", {"none", "str", "nan"} <= set(IN[nd.id]),
                    detail={"passed": sorted(IN[nd.id])})
     ctx.floor(rule, "bisection calls in Table._compare", n, 10)
 
@@ -591,6 +595,7 @@ def _drop_le(tree):
 
 
 CONTROLS = [
+    ("NaN arguments are bisected", RES, M.delete_stmt("Table._compare", M.text_has("arg != arg")), "C17.R10"),
     ("a list selection over a list view taken as one run", RES, M.replace_expr("View.__init__", "[data._select[i] for i in select]", "data._select[select[0]:select[-1] + 1] if select else []"), "C17.R11"),
     ("Missing hashes unlike None", RES, M.replace_expr("MissingType.__hash__", "hash(None)", "hash(MissingType)"), "C17.R9"),
     ("None is bisected as it is", RES, M.replace_stmt("Table._compare", M.text_has("if arg is None: arg = Missing"), "if is_collection: arg = [Missing if a is None else a for a in arg]"), "C17.R10"),
